@@ -2345,7 +2345,7 @@ class FuncOp(IRDLOperation):
     target_cpu = opt_prop_def(StringAttr)
     target_features = opt_prop_def(TargetFeaturesAttr)
     tune_cpu = opt_prop_def(StringAttr)
-    unnamed_addr = opt_prop_def(IntegerAttr)
+    unnamed_addr = opt_prop_def(IntegerAttr, default_value=IntegerAttr(0, 64))
 
     traits = traits_def(SymbolOpInterface())
 
